@@ -148,12 +148,17 @@ def normalize (d : Dec) : Dec :=
 
 /-! ### rounding for reports (C17) -/
 
-/-- `round_dp_with_strategy(dp, MidpointAwayFromZero)` -/
+/-- `round_dp_with_strategy(dp, MidpointAwayFromZero)`: unchanged if `scale ≤ dp`; a zero keeps its
+    sign flag (the "short circuit for zero"); otherwise the coefficient is divided by `10^(scale-dp)`,
+    half goes up, and the result is built with `Decimal::from_parts`, which **clears the sign of a zero
+    coefficient** – a negative value that rounds to zero is `0.00`, not `-0.00` (probed; C17). -/
 def roundHA (d : Dec) (dp : Nat) : Dec :=
   if d.scale ≤ dp then d
+  else if d.coeff = 0 then { neg := d.neg, coeff := 0, scale := dp }
   else
-    let p := 10 ^ (d.scale - dp)
-    { neg := d.neg, coeff := (2 * d.coeff + p) / (2 * p), scale := dp }
+    { neg := d.neg && (2 * d.coeff + 10 ^ (d.scale - dp)) / (2 * 10 ^ (d.scale - dp)) != 0,
+      coeff := (2 * d.coeff + 10 ^ (d.scale - dp)) / (2 * 10 ^ (d.scale - dp)),
+      scale := dp }
 
 /-- `format!("{:.p$}")`: pad with zeros or truncate to `p` fraction digits -/
 def fmtFixedChars (d : Dec) (p : Nat) : List Char :=
